@@ -299,7 +299,11 @@ class TlSchemas:
                             if i >= len(data):
                                 # the count field is attacker-controlled: never loop past the end of the input
                                 raise TlError('vector length exceeds the data provided')
-                            if sch:
+                            if subtype in self.base_types:
+                                # (vector int), (vector int256), (vector bytes) ...: the element is a bare base type
+                                deser, j = self.deserialize(data[i:], False, {'_': subtype})
+                                deser = deser['_']
+                            elif sch:
                                 deser, j = self.deserialize(data[i:], False, sch.args)
                             else:
                                 deser, j = self.deserialize(data[i:], True)
